@@ -688,11 +688,36 @@ func (u *Unit) applyContract(st *State, ct *Contract, sig *types.Signature, recv
 		st.assume(g)
 	}
 	// repinv of the receiver type is required by and guaranteed after every method under contract
+	var recvTS *TypeSpec
+	if recv != nil && ct.Kind == "func" && ct.Flags["helper"] == "" {
+		recvTS = u.typeSpecOf(recv.T)
+	}
+	if recvTS != nil && len(recvTS.RepInv) > 0 {
+		renv := &SpecEnv{names: map[string]*Val{"self": recv}, pkg: u.eng.pkgOr(recvTS.Pkg, pkg), what: env.what + " repinv"}
+		for _, c := range recvTS.RepInv {
+			g, q := u.evalSpecBool(st, c.E, renv, false)
+			u.oblige(st, fmt.Sprintf("call(%s).repinv.%d@call.%d", short, c.N, n), "repinv", c.Text, g, q)
+			st.assume(g)
+		}
+	}
 	pre := st.clone()
 	pre.noFacts = 0
 	u.applyModifies(st, ct, env)
 	if ct.Flags["pure"] == "" {
 		st.wm = u.bumpWM(st)
+	}
+	if ct.Flags["may-panic"] != "" && u.ct != nil && len(u.ct.OnPanic) > 0 && u.quiet == 0 {
+		// the callee may also leave by a panic: remember that exit (callee's exceptional postconditions assumed)
+		snap := st.clone()
+		penv := &SpecEnv{names: names, oldNames: names, old: pre, pkg: pkg, what: env.what + " onpanic"}
+		for _, c := range ct.OnPanic {
+			g, _ := u.evalSpecBool(snap, c.E, penv, true)
+			snap.assume(g)
+		}
+		snap.ctl = "panic"
+		snap.trace = append(snap.trace, fmt.Sprintf("%s call %s panics", u.pos(x), short))
+		u.panicSnaps = append(u.panicSnaps, snap)
+		u.panicSites = append(u.panicSites, fmt.Sprintf("%s.%d", short, n))
 	}
 	var resT types.Type
 	if sig != nil {
@@ -717,6 +742,13 @@ func (u *Unit) applyContract(st *State, ct *Contract, sig *types.Signature, recv
 	for _, en := range ct.Ensures {
 		g, _ := u.evalSpecBool(st, en.E, env2, true)
 		st.assume(g)
+	}
+	if recvTS != nil {
+		renv := &SpecEnv{names: map[string]*Val{"self": recv}, pkg: u.eng.pkgOr(recvTS.Pkg, pkg), old: pre, what: env.what + " repinv"}
+		for _, c := range recvTS.RepInv {
+			g, _ := u.evalSpecBool(st, c.E, renv, true)
+			st.assume(g)
+		}
 	}
 	for _, df := range ct.Defines {
 		g, _ := u.evalSpecBool(st, df.E, env2, true)
@@ -771,6 +803,23 @@ func (u *Unit) resolveModifies(st *State, ct *Contract, env *SpecEnv) []modItem 
 				continue
 			}
 			out = append(out, modItem{heap: "G!" + name, sort: sortOf(u.resolveType(u.eng.pkgOr(gf.Pkg, env.pkg), gf.Type))})
+			continue
+		}
+		if m == "counters" {
+			out = append(out, modItem{heap: "XC!counter", sort: SInt})
+			continue
+		}
+		if strings.HasPrefix(m, "counter ") {
+			e, err := parseSpec(strings.TrimSpace(m[8:]))
+			if err != nil {
+				u.eng.specError("%s: bad modifies item %q", env.what, m)
+				continue
+			}
+			q := false
+			st.noFacts++
+			x := u.specExpr(st, e, env, &q)
+			st.noFacts--
+			out = append(out, modItem{heap: "XC!counter", sort: SInt, ref: x.S})
 			continue
 		}
 		if strings.HasPrefix(m, "global ") {
